@@ -63,7 +63,9 @@ var vc05Pools = []struct {
 	{netip.MustParsePrefix("192.0.2.64/26"), vc05Loc{"DE", 1}},
 	{netip.MustParsePrefix("192.0.2.128/26"), vc05Loc{"DE", 3}},
 	{netip.MustParsePrefix("192.0.2.192/27"), vc05Loc{"US", 2}},
-	{netip.MustParsePrefix("192.0.2.224/27"), vc05Loc{"DE", 2}},
+	{netip.MustParsePrefix("192.0.2.224/28"), vc05Loc{"DE", 2}},
+	// a country but no ASN (the ISP database does not know the network)
+	{netip.MustParsePrefix("192.0.2.240/28"), vc05Loc{"DE", 0}},
 	{netip.MustParsePrefix("2001:db8:e1::/48"), vc05Loc{"US", 2}},
 	{netip.MustParsePrefix("2001:db8:e2::/48"), vc05Loc{"DE", 1}},
 }
@@ -89,6 +91,7 @@ var vc05Subnets = map[vc05Loc][2]netip.Prefix{
 	{"US", 4}: {netip.MustParsePrefix("198.18.16.0/21"), netip.MustParsePrefix("2001:db8:a110::/45")},
 	{"DE", 1}: {netip.MustParsePrefix("198.18.64.0/22"), netip.MustParsePrefix("2001:db8:a200::/40")},
 	{"DE", 2}: {netip.MustParsePrefix("198.18.68.0/22"), netip.MustParsePrefix("2001:db8:a300::/40")},
+	{"DE", 0}: {netip.MustParsePrefix("198.18.80.0/21"), netip.MustParsePrefix("2001:db8:a400::/41")},
 }
 
 func vc05GeoSubnet(l vc05Loc, fam netutil.AddrFamily) netip.Prefix {
@@ -134,7 +137,16 @@ type vc05Upstream struct {
 func vc05Scoped(name string) bool {
 	parts := strings.Split(strings.ToLower(name), ".")
 
-	return len(parts) > 1 && parts[1] == "s"
+	return len(parts) > 1 && (parts[1] == "s" || parts[1] == "sb")
+}
+
+// vc05BadEcho: names under sb.test. are answered by a faulty upstream whose
+// echoed ECS address has a bit set beyond the source prefix, with a non-zero
+// scope: a malformed option, so the answer can be neither used nor cached.
+func vc05BadEcho(name string) bool {
+	parts := strings.Split(strings.ToLower(name), ".")
+
+	return len(parts) > 1 && parts[1] == "sb"
 }
 
 func (u *vc05Upstream) ServeDNS(ctx context.Context, rw dnsserver.ResponseWriter, req *dns.Msg) (err error) {
@@ -183,7 +195,13 @@ func (u *vc05Upstream) ServeDNS(ctx context.Context, rw dnsserver.ResponseWriter
 			scope = max(e.SourceNetmask, 1)
 		}
 
-		opt.Option = append(opt.Option, &dns.EDNS0_SUBNET{Code: dns.EDNS0SUBNET, Family: e.Family, SourceNetmask: e.SourceNetmask, SourceScope: scope, Address: e.Address})
+		addr := e.Address
+		if vc05BadEcho(q.Name) && e.SourceNetmask > 0 && int(e.SourceNetmask) < 8*len(addr) {
+			addr = slices.Clone(addr)
+			addr[len(addr)-1] |= 1
+		}
+
+		opt.Option = append(opt.Option, &dns.EDNS0_SUBNET{Code: dns.EDNS0SUBNET, Family: e.Family, SourceNetmask: e.SourceNetmask, SourceScope: scope, Address: addr})
 	}
 
 	return rw.WriteMsg(ctx, req, resp)
@@ -587,7 +605,7 @@ func vc05BuildReq(t *rapid.T, name string, qt uint16, do bool, c vc05Client) (re
 func TestVerifC05History(tt *testing.T) {
 	st := vstat.New("C05", "dnssvc.ecs-history",
 		"rapid histories of clients (v4/v6, known/unknown location, ECS none/valid/declined/malformed/two options) asking overlapping scoped and unscoped names (one in five answered through a filter CNAME rewrite of the question) through ratelimitmw+mainmw+ecscache in front of a subnet-tagging upstream, model GeoIP database; non-trivial = cache hit on a scoped name, or a declined or malformed request; distinct by (question, client ECS mode, effective subnet, hit)",
-		"hit-scoped", "declined", "malformed", "declined-after-scoped-cached", "scoped-other-subnet", "valid-ecs", "two-ecs-options", "question-rewritten-by-filter+ecs")
+		"hit-scoped", "declined", "malformed", "declined-after-scoped-cached", "scoped-other-subnet", "valid-ecs", "two-ecs-options", "question-rewritten-by-filter+ecs", "upstream-echo-malformed", "region-from-ecs-only", "region-from-client-address")
 	st.Finish(tt)
 
 	vc05UseRealAddrs = false
@@ -659,7 +677,7 @@ func vc05RunHistories(tt *testing.T, st *vstat.Stats, env *vc05Env) {
 				a = pool[rapid.IntRange(0, len(pool)-1).Draw(t, "which")]
 			} else {
 				kind := rapid.SampledFrom([]vdns.Kind{vdns.KA, vdns.KA, vdns.KAMixed, vdns.KCNAME, vdns.KNodataSOA, vdns.KNX, vdns.KServfail, vdns.KRefused}).Draw(t, "kind")
-				zone := rapid.SampledFrom([]string{"s.test.", "s.test.", "u.test."}).Draw(t, "zone")
+				zone := rapid.SampledFrom([]string{"s.test.", "s.test.", "u.test.", "sb.test."}).Draw(t, "zone")
 				name := vdns.Name(kind, 6, zone) // TTL 300: nothing expires within a case
 				if rapid.IntRange(0, 4).Draw(t, "rewritten") == 0 {
 					// answered through the filter's CNAME rewrite of the question
@@ -747,20 +765,44 @@ func vc05RunHistories(tt *testing.T, st *vstat.Stats, env *vc05Env) {
 			fams := []netutil.AddrFamily{netutil.AddrFamilyIPv4, netutil.AddrFamilyIPv6}
 			allowed := map[string]bool{"0.0.0.0/0": true, "::/0": true}
 			if !declined {
-				addrs := []netip.Addr{c.Remote}
+				// The region is that of the ECS option when the option's
+				// address has a location with a country (ecscache.locFromReq:
+				// "either the contents of the EDNS Client Subnet option or the
+				// real remote address", as a whole); the client's own location
+				// only stands in when it has not.  Whole locations only, never
+				// a mixture of the two.
+				var ecsAddrs []netip.Addr
 				if c.Mode == vc05Valid {
-					addrs = append(addrs, c.Subnet.Addr())
+					ecsAddrs = append(ecsAddrs, c.Subnet.Addr())
 					if c.SecondInOwnOPT {
 						// Two OPT records: whichever the server takes as the
 						// client's option.
-						addrs = append(addrs, c.Second.Addr())
+						ecsAddrs = append(ecsAddrs, c.Second.Addr())
 					}
 				}
 
 				if env.sameBlock != nil {
-					for _, a := range slices.Clone(addrs) {
-						addrs = append(addrs, env.sameBlock(a)...)
+					for _, a := range slices.Clone(ecsAddrs) {
+						ecsAddrs = append(ecsAddrs, env.sameBlock(a)...)
 					}
+				}
+
+				clientStandsIn := len(ecsAddrs) == 0
+				for _, a := range ecsAddrs {
+					if l := env.locate(a); l == nil || l.Country == geoip.CountryNone {
+						clientStandsIn = true
+					}
+				}
+
+				addrs := ecsAddrs
+				if clientStandsIn {
+					classes = append(classes, "region-from-client-address")
+					addrs = append(addrs, c.Remote)
+					if env.sameBlock != nil {
+						addrs = append(addrs, env.sameBlock(c.Remote)...)
+					}
+				} else {
+					classes = append(classes, "region-from-ecs-only")
 				}
 
 				for _, a := range addrs {
@@ -846,6 +888,27 @@ func vc05RunHistories(tt *testing.T, st *vstat.Stats, env *vc05Env) {
 				if call.ecs.SourceNetmask == 0 {
 					zeroAsked[cacheKey] = true
 				}
+			}
+
+			// A faulty upstream: its answer carried a malformed ECS echo, so it
+			// can be neither used nor cached; the client gets a server failure
+			// and the next asker goes upstream again (a cached copy would show
+			// in the comparison with the fresh stack above).
+			mangled := false
+			for _, call := range calls {
+				if vc05BadEcho(a.name) && call.ecs != nil && call.ecs.SourceNetmask > 0 {
+					mangled = true
+				}
+			}
+
+			if mangled {
+				if resp.Rcode != dns.RcodeServerFailure {
+					t.Fatalf("history %v: the upstream's answer had a malformed ECS echo, but the client got rcode %d", hist, resp.Rcode)
+				}
+
+				st.Case(fmt.Sprintf("%s|%s|bad-upstream-echo", qk, c), append(classes, "upstream-echo-malformed")...)
+
+				continue
 			}
 
 			// P4: ECS option in the response.
